@@ -88,6 +88,20 @@ type Flow struct {
 	pruned  int // infeasible prefixes pruned
 }
 
+// visitOverride raises the per-block visit bound for functions whose rules need
+// two complete loop iterations (default 2 = one complete iteration plus a partial one).
+var visitOverride = map[string]int{
+	"workflow/storage/sqlite.reader.buildSearchQuery": 3,
+	"workflow/storage/cosmosdb.reader.buildSearchQuery": 3,
+}
+
+func (f *Flow) maxVisits() int {
+	if n, ok := visitOverride[f.Name]; ok {
+		return n
+	}
+	return 2
+}
+
 // FlowOf returns the (memoised) flow of a declared function.
 func (p *Prog) FlowOf(f *Func) *Flow {
 	return p.flowOf(f.Decl, f.Decl.Body, f.Pkg, f.Key)
@@ -275,13 +289,16 @@ func (f *Flow) Paths() (paths []Path, ok bool) {
 		return nil, true
 	}
 	visits := make([]int, len(f.CFG.Blocks))
+	savedVolatile := volatile
+	volatile = computeVolatile(f.Info, f.Body)
+	defer func() { volatile = savedVolatile }()
 	var cur []Event
 	var rec func(b *cfg.Block, pre []Event, fa facts)
 	rec = func(b *cfg.Block, pre []Event, fa facts) {
 		if f.over {
 			return
 		}
-		if visits[b.Index] >= 2 {
+		if visits[b.Index] >= f.maxVisits() {
 			return
 		}
 		mark := len(cur)
